@@ -61,6 +61,7 @@ struct pathent {
   char path[PATH_LEN];
   int count[OP_N];
   int sticky_err; /* writes to this path fail with this errno from now on */
+  long size_before_last_write; /* file offset before the last successful write, -1 if none */
 };
 
 static int g_active = -1;
@@ -266,17 +267,24 @@ static int classify(const char *path) {
     if (!strcmp(g_paths[i].path, rel)) return i;
   if (g_npaths >= MAX_PATHS) return -1;
   strcpy(g_paths[g_npaths].path, rel);
+  g_paths[g_npaths].size_before_last_write = -1;
   return g_npaths++;
+}
+
+/* A rule path is an exact relative path, "*" (any path), or "prefix*". */
+static int path_matches(const char *pat, const char *path) {
+  size_t n = strlen(pat);
+  if (n > 0 && pat[n - 1] == '*') return strncmp(pat, path, n - 1) == 0;
+  return strcmp(pat, path) == 0;
 }
 
 static struct rule *match(int op, int pi, int k) {
   for (int i = 0; i < g_nrules; i++) {
     struct rule *R = &g_rules[i];
     if (R->op != op) continue;
-    if (R->action == A_CHUNK) { if (R->path[0] == '*' || !strcmp(R->path, g_paths[pi].path)) return R; continue; }
+    if (R->action == A_CHUNK) { if (path_matches(R->path, g_paths[pi].path)) return R; continue; }
     if (R->k != k) continue;
-    if (R->path[0] == '*' && R->path[1] == 0) return R;
-    if (!strcmp(R->path, g_paths[pi].path)) return R;
+    if (path_matches(R->path, g_paths[pi].path)) return R;
   }
   return NULL;
 }
@@ -362,10 +370,18 @@ int openat(int dirfd, const char *path, int flags, ...) {
 
 /* ---- close ---- */
 
-static int close_fault(int pi, int *err) {
+static int close_fault(int pi, int fd, int *err) {
   int k = ++g_paths[pi].count[OP_CLOSE];
   struct rule *R = match(OP_CLOSE, pi, k);
-  if (R && (R->action == A_FAIL || R->action == A_FAILONCE)) { R->fired++; *err = R->err; return 1; }
+  if (R && (R->action == A_FAIL || R->action == A_FAILONCE)) {
+    R->fired++;
+    *err = R->err;
+    /* close(2) reporting an error means delayed data could not be stored: the last write is lost */
+    if (g_paths[pi].size_before_last_write >= 0) {
+      if (ftruncate(fd, (off_t)g_paths[pi].size_before_last_write) != 0) { /* ignore */ }
+    }
+    return 1;
+  }
   return 0;
 }
 
@@ -375,7 +391,8 @@ int fclose(FILE *f) {
   int pi = tracked(fd);
   if (pi < 0) return real_fclose(f);
   g_fd2path[fd] = 0;
-  int err = 0, fault = close_fault(pi, &err);
+  if (f) fflush(f);
+  int err = 0, fault = close_fault(pi, fd, &err);
   int r = real_fclose(f);
   int e = errno;
   if (fault) { r = EOF; e = err; }
@@ -389,7 +406,7 @@ int close(int fd) {
   int pi = tracked(fd);
   if (pi < 0) return real_close(fd);
   g_fd2path[fd] = 0;
-  int err = 0, fault = close_fault(pi, &err);
+  int err = 0, fault = close_fault(pi, fd, &err);
   int r = real_close(fd);
   int e = errno;
   if (fault) { r = -1; e = err; }
@@ -439,8 +456,10 @@ ssize_t write(int fd, const void *buf, size_t len) {
   int err = 0; const char *tag;
   long n = write_fate(pi, len, &err, &tag);
   if (n < 0) { trace("write", g_paths[pi].path, (long)len, -1, err, tag); errno = err; return -1; }
+  long before = (long)lseek(fd, 0, SEEK_CUR);
   ssize_t r = real_write(fd, buf, (size_t)n);
   int e = errno;
+  if (r > 0 && before >= 0) g_paths[pi].size_before_last_write = before;
   trace("write", g_paths[pi].path, (long)len, r, r < 0 ? e : 0, tag);
   errno = e;
   return r;
@@ -456,6 +475,7 @@ ssize_t writev(int fd, const struct iovec *iov, int cnt) {
   long n = write_fate(pi, len, &err, &tag);
   if (n < 0) { trace("writev", g_paths[pi].path, (long)len, -1, err, tag); errno = err; return -1; }
   ssize_t r;
+  long before = (long)lseek(fd, 0, SEEK_CUR);
   if ((size_t)n == len) {
     r = real_writev(fd, iov, cnt);
   } else {
@@ -471,6 +491,7 @@ ssize_t writev(int fd, const struct iovec *iov, int cnt) {
     }
   }
   int e = errno;
+  if (r > 0 && before >= 0) g_paths[pi].size_before_last_write = before;
   trace("writev", g_paths[pi].path, (long)len, r, r < 0 ? e : 0, tag);
   errno = e;
   return r;
@@ -490,7 +511,7 @@ ssize_t read(int fd, void *buf, size_t len) {
   for (int i = 0; i < g_nrules; i++) {
     struct rule *Q = &g_rules[i];
     if (Q->op != OP_READ || Q->action == A_CHUNK || Q->k != k) continue;
-    if ((Q->path[0] == '*' && Q->path[1] == 0) || !strcmp(Q->path, P->path)) { R = Q; break; }
+    if (path_matches(Q->path, P->path)) { R = Q; break; }
   }
   if (R && (R->action == A_FAIL || R->action == A_FAILONCE || R->action == A_EINTR)) {
     R->fired++;
@@ -501,8 +522,7 @@ ssize_t read(int fd, void *buf, size_t len) {
   size_t want = len;
   for (int i = 0; i < g_nrules; i++) {
     struct rule *Q = &g_rules[i];
-    if (Q->op == OP_READ && Q->action == A_CHUNK &&
-        ((Q->path[0] == '*' && Q->path[1] == 0) || !strcmp(Q->path, P->path))) {
+    if (Q->op == OP_READ && Q->action == A_CHUNK && path_matches(Q->path, P->path)) {
       if (Q->n >= 1 && (size_t)Q->n < want) { want = (size_t)Q->n; Q->fired++; tag = "read-chunk"; }
       break;
     }
